@@ -143,4 +143,14 @@ theorem C34_tgen_marks_below_next :
     (no lock-order cycle `filesLock → file lock` against readers, which take `file lock → filesLock`). -/
 theorem C38_tgen_gc_lock_order :
     has_rewrite_deferred_unlock = "no" ∧ ord_rewrite_unlock_delete = "ascending" := by decide
+/-- the entry `valueLog.rewrite` writes back (`ne`) carries the record's meta with ONLY the
+    value-pointer and transaction bits removed (one assignment to `ne.meta`), its user meta and its
+    expiry: `wbEnt` of `BadgerModel/Vlog.lean`. In particular the merge-operand bit and the
+    discard-earlier bit survive a GC (C13: a merge operand is never counted against
+    NumVersionsToKeep; C31: the operator folds all operands). -/
+theorem C15_tgen_writeback_fields :
+    has_rewrite_meta_keep = "yes" ∧ has_rewrite_umeta_copy = "yes" ∧ has_rewrite_exp_copy = "yes" ∧
+    n_rewrite_meta_assign = 1 := by decide
+theorem C13_tgen_writeback_meta : has_rewrite_meta_keep = "yes" ∧ n_rewrite_meta_assign = 1 := by decide
+theorem C31_tgen_writeback_meta : has_rewrite_meta_keep = "yes" ∧ n_rewrite_meta_assign = 1 := by decide
 end Badger
